@@ -16,6 +16,8 @@ CONSTANTS Unix,        \* bind is a unix socket (a file to unlink) or tcp
           MaxSignals,  \* budget of operator signals
           Dev
 
+Daemon == "NotDaemon" \notin Dev      \* WINCH only acts on a daemonized master
+
 M == {"a", "b", "c"}
 Parent(m) == IF m = "b" THEN "a" ELSE IF m = "c" THEN "b" ELSE "none"
 Child(m) == IF m = "a" THEN "b" ELSE IF m = "b" THEN "c" ELSE "none"
@@ -27,13 +29,20 @@ VARIABLES st,         \* st[m]: "none" | "booting" (exec'ed, not yet listening) 
           zombie,     \* masters that exited and were not yet reaped by their parent
           pidfile,    \* [base |-> content, two |-> content]: "none" or a master's name
           sockfile,   \* the unix socket's file exists
-          nsig, usr2Ignored
-vars == <<st, reexec, mpid, holds, zombie, pidfile, sockfile, nsig, usr2Ignored>>
+          nsig, usr2Ignored,
+          workers,    \* workers[m]: number of workers master m runs (configured: 1)
+          wantServe,  \* history: the operator's last word on m's workers (WINCH: FALSE, HUP / start: TRUE)
+          cause,      \* history: cause[m] why m is dead: "op" (stop signal) | "boot" (failed to boot) | "none"
+          lastExit    \* history: the master that exited last
+vars == <<st, reexec, mpid, holds, zombie, pidfile, sockfile, nsig, usr2Ignored, workers, wantServe, cause, lastExit>>
+svars == <<workers, wantServe, cause, lastExit>>
 
 Init == /\ st = [m \in M |-> IF m = "a" THEN "up" ELSE "none"]
         /\ reexec = [m \in M |-> "none"] /\ mpid = [m \in M |-> "none"]
         /\ holds = {"a"} /\ zombie = {} /\ pidfile = [base |-> "a", two |-> "none"] /\ sockfile = Unix
         /\ nsig = 0 /\ usr2Ignored = FALSE
+        /\ workers = [m \in M |-> IF m = "a" THEN 1 ELSE 0] /\ wantServe = [m \in M |-> m = "a"]
+        /\ cause = [m \in M |-> "none"] /\ lastExit = "none"
 
 Alive(m) == st[m] \in {"booting", "up", "stopping"}
 
@@ -42,20 +51,44 @@ USR2(m) ==
   /\ st[m] = "up" /\ nsig < MaxSignals /\ nsig' = nsig + 1
   /\ IF reexec[m] # "none" \/ mpid[m] # "none" \/ Child(m) = "none"
         \/ st[Child(m)] \notin {"none", "dead"} \/ Child(m) \in zombie
-     THEN usr2Ignored' = TRUE /\ UNCHANGED <<st, reexec, mpid, holds, zombie, pidfile, sockfile>>
+     THEN usr2Ignored' = TRUE /\ UNCHANGED <<st, reexec, mpid, holds, zombie, pidfile, sockfile, svars>>
      ELSE LET c == Child(m) IN
           /\ st' = [st EXCEPT ![c] = "booting"]
           /\ reexec' = [reexec EXCEPT ![m] = c]
           /\ mpid' = [mpid EXCEPT ![c] = m]
           /\ holds' = holds \cup {c}            \* descriptors are inherited through fork + exec
-          /\ UNCHANGED <<zombie, pidfile, sockfile, usr2Ignored>>
+          /\ cause' = [cause EXCEPT ![c] = "none"]
+          /\ UNCHANGED <<zombie, pidfile, sockfile, usr2Ignored, workers, wantServe, lastExit>>
 
 (* the new master finishes Arbiter.start: pid file under ".2" *)
 Boot(m) ==
   /\ st[m] = "booting"
   /\ st' = [st EXCEPT ![m] = "up"]
   /\ pidfile' = [pidfile EXCEPT !.two = m]
-  /\ UNCHANGED <<reexec, mpid, holds, zombie, sockfile, nsig, usr2Ignored>>
+  /\ workers' = [workers EXCEPT ![m] = 1] /\ wantServe' = [wantServe EXCEPT ![m] = TRUE]
+  /\ UNCHANGED <<reexec, mpid, holds, zombie, sockfile, nsig, usr2Ignored, cause, lastExit>>
+
+(* the new master cannot boot (its application does not load: exit status 3 / 4) and exits by itself *)
+BootFail(m) ==
+  /\ st[m] = "booting"
+  /\ st' = [st EXCEPT ![m] = "dead"] /\ cause' = [cause EXCEPT ![m] = "boot"] /\ lastExit' = m
+  /\ holds' = holds \ {m}
+  /\ zombie' = IF Parent(m) # "none" /\ Alive(Parent(m)) THEN zombie \cup {m} ELSE zombie
+  /\ UNCHANGED <<reexec, mpid, pidfile, sockfile, nsig, usr2Ignored, workers, wantServe>>
+
+(* WINCH: a daemonized master stops its workers (and keeps listening); otherwise ignored *)
+Winch(m) ==
+  /\ st[m] = "up" /\ nsig < MaxSignals /\ nsig' = nsig + 1
+  /\ IF Daemon THEN workers' = [workers EXCEPT ![m] = 0] /\ wantServe' = [wantServe EXCEPT ![m] = FALSE]
+     ELSE UNCHANGED <<workers, wantServe>>
+  /\ UNCHANGED <<st, reexec, mpid, holds, zombie, pidfile, sockfile, usr2Ignored, cause, lastExit>>
+
+(* HUP: reload; the master runs the configured number of workers again *)
+Hup(m) ==
+  /\ st[m] = "up" /\ nsig < MaxSignals /\ nsig' = nsig + 1
+  /\ workers' = [workers EXCEPT ![m] = IF "HupKeepsScale" \in Dev THEN @ ELSE 1]
+  /\ wantServe' = [wantServe EXCEPT ![m] = TRUE]
+  /\ UNCHANGED <<st, reexec, mpid, holds, zombie, pidfile, sockfile, usr2Ignored, cause, lastExit>>
 
 (* operator sends TERM / QUIT to a master: stop() + halt() *)
 Stop(m) ==
@@ -68,33 +101,42 @@ Stop(m) ==
         /\ holds' = holds \ {m}
   /\ pidfile' = [base |-> IF pidfile.base = m /\ mpid[m] = "none" THEN "none" ELSE pidfile.base,
                  two |-> IF pidfile.two = m /\ mpid[m] # "none" THEN "none" ELSE pidfile.two]
-  /\ st' = [st EXCEPT ![m] = "dead"]
+  /\ st' = [st EXCEPT ![m] = "dead"] /\ cause' = [cause EXCEPT ![m] = "op"] /\ lastExit' = m
+  /\ workers' = [workers EXCEPT ![m] = 0]
   /\ zombie' = IF Parent(m) # "none" /\ Alive(Parent(m)) THEN zombie \cup {m} ELSE zombie
-  /\ UNCHANGED <<reexec, mpid, usr2Ignored>>
+  /\ UNCHANGED <<reexec, mpid, usr2Ignored, wantServe>>
 
 (* SIGCHLD handler of the parent master reaps the exec'ed child *)
 Reap(m) ==
   /\ Alive(m) /\ Child(m) \in zombie /\ reexec[m] = Child(m)
   /\ reexec' = [reexec EXCEPT ![m] = IF "NoReexecReset" \in Dev THEN @ ELSE "none"]
   /\ zombie' = zombie \ {Child(m)}
-  /\ UNCHANGED <<st, mpid, holds, pidfile, sockfile, nsig, usr2Ignored>>
+  \* deviation: the exit status of the exec'ed master (3 / 4) is taken for a worker's boot failure: HaltServer
+  /\ IF "ChildBootFailureHaltsParent" \in Dev /\ cause[Child(m)] = "boot"
+     THEN /\ st' = [st EXCEPT ![m] = "dead"] /\ holds' = holds \ {m} /\ workers' = [workers EXCEPT ![m] = 0]
+          /\ pidfile' = [pidfile EXCEPT !.base = IF @ = m THEN "none" ELSE @]
+          /\ sockfile' = (IF Unix THEN FALSE ELSE sockfile)
+          /\ lastExit' = m /\ UNCHANGED <<mpid, nsig, usr2Ignored, wantServe, cause>>
+     ELSE UNCHANGED <<st, mpid, holds, pidfile, sockfile, nsig, usr2Ignored, svars>>
 
 (* main loop of the child master: its parent is gone -> promoted; pid file renamed *)
 Promote(m) ==
   /\ st[m] = "up" /\ mpid[m] # "none" /\ ~Alive(mpid[m])
   /\ mpid' = [mpid EXCEPT ![m] = "none"]
   /\ pidfile' = [base |-> m, two |-> IF pidfile.two = m THEN "none" ELSE pidfile.two]
-  /\ UNCHANGED <<st, reexec, holds, zombie, sockfile, nsig, usr2Ignored>>
+  /\ UNCHANGED <<st, reexec, holds, zombie, sockfile, nsig, usr2Ignored, svars>>
 
-Next == \E m \in M : USR2(m) \/ Boot(m) \/ Stop(m) \/ Reap(m) \/ Promote(m)
-Spec == Init /\ [][Next]_vars /\ \A m \in M : WF_vars(Boot(m)) /\ WF_vars(Reap(m)) /\ WF_vars(Promote(m))
+Next == \E m \in M : USR2(m) \/ Boot(m) \/ BootFail(m) \/ Stop(m) \/ Reap(m) \/ Promote(m) \/ Winch(m) \/ Hup(m)
+Spec == Init /\ [][Next]_vars /\ \A m \in M : WF_vars(Boot(m) \/ BootFail(m)) /\ WF_vars(Reap(m)) /\ WF_vars(Promote(m))
 
 -----------------------------------------------------------------------------
 AnyAlive == \E m \in M : Alive(m)
 (* C14 *)
 ListenRefcountPositive == AnyAlive => holds # {}
 SocketFileUsable == (Unix /\ AnyAlive) => sockfile
-SocketFileRemovedAtLast == (Unix /\ ~AnyAlive /\ zombie = {}) => ~sockfile
+(* (a new master that dies of its own boot failure does not know it is the last one: if the old one was stopped
+   while it booted, the file stays behind - the code's behaviour, outside C14's "removed only when") *)
+SocketFileRemovedAtLast == (Unix /\ ~AnyAlive /\ zombie = {} /\ (lastExit = "none" \/ cause[lastExit] # "boot")) => ~sockfile
 (* while two generations live, the old one is under the configured name and the new one under ".2" *)
 Pid2ThenRename ==
   \A m \in M : (st[m] = "up" /\ mpid[m] # "none" /\ Alive(mpid[m]) /\ st[mpid[m]] = "up" /\ mpid[mpid[m]] = "none")
@@ -104,6 +146,11 @@ PromotedOwnsConfiguredName == <>[](\A m \in M : (st[m] = "up" /\ mpid[m] = "none
 AtMostTwoGenerationsAlive == Cardinality({m \in M : Alive(m)}) <= 2
 (* stopping the new master restores the single-master state: the old one can upgrade again later,
    and when it finally stops it removes the socket file *)
+(* a master runs its workers unless the operator's last word to it was WINCH: in particular HUP after WINCH
+   restores them, so a rollback finds the old master serving *)
+ServesUnlessWinched == \A m \in M : (st[m] = "up" /\ wantServe[m]) => workers[m] > 0
+(* a master only dies of a stop signal or of its own failure to boot: a failed upgrade leaves the old one running *)
+DiesOnlyWhenToldTo == \A m \in M : st[m] = "dead" => cause[m] \in {"op", "boot"}
 RollbackRestores == \A m \in M : (Alive(m) /\ Child(m) # "none" /\ st[Child(m)] = "dead" /\ Child(m) \notin zombie)
                                     => reexec[m] = "none"
 =============================================================================
